@@ -20,7 +20,7 @@ func H_C11_tree_readonly() {
 	if c.St != nil {
 		c.St.Ul = nil
 	}
-	if (c.D != nil && c.D.Ddec != nil) || c.Ki != nil || c.Kb != nil {
+	if (c.D != nil && c.D.Ddec != nil) || c.Ki != nil || c.Kb != nil || c.K2S != nil {
 		return // float-valued trees and full-width numeric keys add only solver time here (C01/C02/C16 cover them)
 	}
 	d := &Device{C: c}
